@@ -32,21 +32,22 @@ type simNode struct {
 }
 
 type simNet struct {
-	g         *rng.R
-	nodes     map[p2p.PeerID]*simNode
-	order     []p2p.PeerID
-	self      p2p.PeerID // the asker
-	asks      map[p2p.PeerID]int
-	answers   map[p2p.PeerID]bool
-	askLog    []string
-	mentioned map[p2p.PeerID]bool
-	accepted  map[p2p.PeerID]bool
-	values    map[p2p.PeerID][]byte // value each node returned for Get
-	fabCap    int                   // remaining fabricated ids
-	fabs      map[p2p.PeerID]bool
-	limit     int // ask budget guard
-	total     int
-	knownHit  bool // some responder returned a node already known
+	g          *rng.R
+	nodes      map[p2p.PeerID]*simNode
+	order      []p2p.PeerID
+	self       p2p.PeerID // the asker
+	asks       map[p2p.PeerID]int
+	answers    map[p2p.PeerID]bool
+	askLog     []string
+	mentioned  map[p2p.PeerID]bool
+	accepted   map[p2p.PeerID]bool
+	values     map[p2p.PeerID][]byte // value each node returned for Get
+	untruthful []string              // honest nodes whose put reply disagrees with what they stored
+	fabCap     int                   // remaining fabricated ids
+	fabs       map[p2p.PeerID]bool
+	limit      int // ask budget guard
+	total      int
+	knownHit   bool // some responder returned a node already known
 }
 
 type guardTrip struct{}
@@ -219,7 +220,15 @@ func (sn *simNet) put(ni kademlia.NodeInfo, req kademlia.PutReq) (kademlia.PutRe
 	}
 	var res kademlia.PutRes
 	if n.kind == simHonest {
+		if sn.g.Chance(1, 2) {
+			// this node already holds an older value under the key: the put is a refresh
+			n.node.Put(append([]byte{}, req.Key...), []byte("VALID-older-value"), time.Minute)
+		}
 		res, _ = n.node.HandlePut(sn.self, req)
+		// an honest node's reply must say what it did
+		if stored := bytes.Equal(n.node.Get(req.Key), req.Value); stored != res.Accepted {
+			sn.untruthful = append(sn.untruthful, fmt.Sprintf("node %s: holds the value afterwards=%v, replied accepted=%v", ni.ID.String()[:8], stored, res.Accepted))
+		}
 	} else {
 		res.Closer = sn.advList(n, req.Key)
 		res.Accepted = sn.g.Chance(1, 2)
@@ -335,7 +344,7 @@ func buildNet(g *rng.R, cs *c20Case) (*simNet, []p2p.PeerID) {
 }
 
 func runC20(r *ev.Run) {
-	r.Rule = "simulated networks (sparse/dense/ring/star/two clusters, N in {1,2,5,30,300}) whose honest responders are real DHTNodes and whose other responders fail or return cyclic/self/asker/contacted/farther/huge/duplicate/fabricated lists; per operation the ask ledger decides: each node id asked <=1 times, asks <= distinct ids mentioned, termination guard at 10x, and the result fields (Closest, Contacted/Responded, Accepted, Value/From, error) are recomputed from the ledger. non-trivial = >=3 asks and >=1 responder returned an already-known node; distinct = (topology, mix, |initial| class, op)"
+	r.Rule = "simulated networks (sparse/dense/ring/star/two clusters, N in {1,2,5,30,300}) whose honest responders are real DHTNodes and whose other responders fail or return cyclic/self/asker/contacted/farther/huge/duplicate/fabricated lists; per operation the ask ledger decides: each node id asked <=1 times, asks <= distinct ids mentioned, termination guard at 10x, and the result fields (Closest, Contacted/Responded, Accepted, Value/From, error) are recomputed from the ledger; honest nodes (half of which already hold an older value under the key) must reply accepted exactly when they hold the new value afterwards. non-trivial = >=3 asks and >=1 responder returned an already-known node; distinct = (topology, mix, |initial| class, op)"
 	r.Assumptions = []string{
 		"node ids are never all-zero (the library's 'no peer yet' sentinel); targets may be",
 		"initial peer sets contain no duplicate ids",
@@ -564,6 +573,10 @@ func c20One(r *ev.Run, g *rng.R, caseID string, idx int) {
 			}
 		}
 	case "put":
+		if len(sn.untruthful) > 0 {
+			r.Violate("C20/put-reply-untruthful", caseID, "an honest node's reply to a put disagrees with what it stored: "+sn.untruthful[0], det(map[string]any{"all": sn.untruthful}))
+			return
+		}
 		if putRes.Accepted != len(sn.accepted) {
 			r.Violate("C20/put-accepted-count", caseID, fmt.Sprintf("Accepted=%d but %d distinct nodes accepted", putRes.Accepted, len(sn.accepted)), det(nil))
 			return
